@@ -391,6 +391,7 @@ def validate_split(cwd, module, cfg, trace, max_lines=25000, workers=4, timeout=
             v['l'] += off
         if r.get('rejected_at'):
             r['rejected_at'] += off
+        r['_off'] = off
         return r
     rs = pmap(one, parts, workers=workers)
     out = {'consumed': 1, 'lines': 1, 'wall': 0.0, 'viol': [], 'stats': {}, 'rc': 0, 'parts': len(parts)}
@@ -400,7 +401,10 @@ def validate_split(cwd, module, cfg, trace, max_lines=25000, workers=4, timeout=
         out['wall'] = max(out['wall'], r['wall'])
         out['viol'] += r['viol']
         for k, v in r['stats'].items():
-            out['stats'][k] = out['stats'].get(k, 0) + v
+            if isinstance(v, list):
+                out['stats'][k] = out['stats'].get(k, []) + [x + off for x, off in zip(v, [r.get('_off', 0)] * len(v))]
+            else:
+                out['stats'][k] = out['stats'].get(k, 0) + v
         if r.get('rejected_at') and 'rejected_at' not in out:
             out['rejected_at'] = r['rejected_at']
             out['tlc_tail'] = r.get('tlc_tail')
